@@ -29,6 +29,7 @@ type walker struct {
 	fields []field
 	ops    []seenOp // every instruction seen by instrs, with its first LEB immediate
 	inElemItem bool // walking an item expression of an element segment
+	elemGlobalGet bool // some element item expression is a global.get
 }
 
 type seenOp struct {
@@ -128,8 +129,24 @@ func (w *walker) constExpr() {
 	w.instrs(true)
 }
 
+// elemItemsUseGlobalGet reports whether some element item of the binary is written as `global.get`;
+// parsed is false when this walker does not understand the binary (classification aid only).
+func elemItemsUseGlobalGet(b []byte) (found, parsed bool) {
+	defer func() {
+		if recover() != nil {
+			found, parsed = false, false
+		}
+	}()
+	w := walkModule(b)
+	return w.elemGlobalGet, true
+}
+
 // fieldMap walks a complete module.
 func fieldMap(b []byte) []field {
+	return walkModule(b).fields
+}
+
+func walkModule(b []byte) *walker {
 	w := &walker{b: b, p: 8}
 	for w.p < len(b) {
 		id := w.byte_()
@@ -299,7 +316,7 @@ func fieldMap(b []byte) []field {
 			w.fail("section %d length: at %d want %d", id, w.p, end)
 		}
 	}
-	return w.fields
+	return w
 }
 
 // instrs walks an instruction sequence up to and including the `end` that closes it.
@@ -340,6 +357,9 @@ func (w *walker) instrs(untilEnd bool) {
 		case op >= 0x20 && op <= 0x22:
 			w.uleb("imm.localidx")
 		case op == 0x23 || op == 0x24:
+			if w.inElemItem && op == 0x23 {
+				w.elemGlobalGet = true
+			}
 			w.uleb("imm.globalidx")
 		case op == 0x25 || op == 0x26:
 			w.uleb("imm.tableidx")
